@@ -112,7 +112,7 @@ PROPS = {
         "assumptions": ["domain: '/'-free segments, last segment non-empty (or the single empty segment); parent strings not ending in '/'", "distinctness is stated in collision-extraction form (no injectivity of SHA-256 is assumed)"],
     },
     "C13": {
-        "runs": mint_runs, "replay_runs": replay_runs, "monitor": mon_mint.c13, "panic_relevant": True,
+        "runs": mint_runs, "replay_runs": replay_runs, "monitor": mon_mint.c13, "panic_relevant": True, "facts": facts.gen_pure_fns,
         "diff_relevant": lambda d: d["mod"] == "mint",
         "trusted_base": BASE_TRUST + ["sdk.Dec arithmetic re-modelled exactly (Canine/Basic/Dec.lean: chopPrecisionAndRound, truncated big.Int.Quo) and exercised by the correspondence",
                                       "distribution's BeginBlocker only moves fee_collector funds into the distribution module account (observed together as 'stakers')"],
@@ -138,7 +138,7 @@ PROPS = {
         "trusted_base": BASE_TRUST, "assumptions": RNS_ASSUME,
     },
     "C16": {
-        "runs": rns_runs, "replay_runs": replay_runs, "monitor": mon_rns.c16,
+        "runs": rns_runs, "replay_runs": replay_runs, "monitor": mon_rns.c16, "facts": facts.gen_pure_fns,
         "diff_relevant": lambda d: d["mod"] == "rns" and d["op"] in ("register", "init"),
         "trusted_base": BASE_TRUST, "assumptions": RNS_ASSUME,
     },
@@ -203,11 +203,11 @@ def st(fields=None, ops=None, opfields=None):
 STORAGE_PROPS = {
     "C01": dict(main="proofs", extra=("forms",), monitor=mon_storage.C01, stateful=True,
                 rel=st(fields=["verify", "success"], ops=["postProof"], opfields={"block": ["files", "files2", "proofs", "bank"], "attest": ["proofs"], "postFile": ["files", "proofs"]})),
-    "C02": dict(main="proofs", monitor=mon_storage.c02,
+    "C02": dict(main="proofs", monitor=mon_storage.c02, facts=facts.gen_pure_fns,
                 rel=st(fields=["verify", "challenge"], ops=["postProof"], opfields={"block": ["files", "files2", "proofs", "providers"]})),
     "C03": dict(main="proofs", monitor=mon_storage.c03,
                 rel=st(opfields={"block": ["files", "files2", "proofs", "providers", "bank", "panic"]})),
-    "C04": dict(main="payments", monitor=mon_storage.c04,
+    "C04": dict(main="payments", monitor=mon_storage.c04, facts=facts.gen_pure_fns,
                 rel=st(ops=["buyStorage"], opfields={"postFile": ["bank", "gauges", "outcome"]})),
     "C05": dict(main="storage", monitor=mon_storage.c05, panic=True,
                 rel=st(fields=["panic"], ops=["block"], opfields={"postFile": ["outcome", "files"]})),
@@ -230,3 +230,5 @@ for _pid, _c in STORAGE_PROPS.items():
             "stateful": _c.get("stateful", False), "panic_relevant": _c.get("panic", False),
             "diff_relevant": _c["rel"], "trusted_base": ST_TRUST, "assumptions": ST_ASSUME,
         }
+        if _c.get("facts"):
+            PROPS[_pid]["facts"] = _c["facts"]
